@@ -52,6 +52,9 @@ func main() {
 			c.Run(run, tier)
 		}()
 		os.Exit(run.Finish())
+	case "gen":
+		// vrun gen <profile> <seed> : print one generated program and its predicted output (debugging aid)
+		checks.DebugGen(os.Args[2:])
 	case "replay":
 		if len(os.Args) < 3 {
 			usage()
